@@ -22,10 +22,10 @@ theorem handle_mods (v : Variant) (adjNow : List Link) (order : List Nat) (conns
   unfold handleLinkEvent
   split
   · exact ⟨[], by simp, fun b h => h⟩
-  · cases hu : updateTree adjNow order conns acc.1 with
+  · cases hu : updateTree v.visitAll adjNow order conns acc.1 with
     | error e => exact ⟨[], by simp, fun b h => h⟩
     | ok r =>
-      have := (updateTree_mods adjNow order conns acc.1 r.1 r.2 (by rw [hu])).1
+      have := (updateTree_mods v.visitAll adjNow order conns acc.1 r.1 r.2 (by rw [hu])).1
       exact ⟨r.2, rfl, this⟩
 
 theorem handleAll_mods (v : Variant) (adjNow : List Link) (order : List Nat) (conns : Conns) :
